@@ -240,3 +240,67 @@ impl AsyncWrite for UtpStreamWriteHalf {
         Poll::Pending
     }
 }
+
+#[cfg(feature = "verif")]
+impl UserTx {
+    /// Verification hook: canonical dump of the shared TX state (flags, waker slots, ring contents).
+    pub fn verif_fp(&self, out: &mut Vec<u64>) {
+        let UserTx {
+            locked,
+            producer: _, // the producer and the consumer are two views of the same ring
+            consumer,
+        } = self;
+        {
+            let g = locked.read();
+            let UserTxLocked {
+                vsock_closed,
+                writer_dropped,
+                writer_shutdown,
+                dispatcher_waker,
+                writer_waker,
+            } = &*g;
+            out.push(
+                (*vsock_closed as u64)
+                    | (*writer_dropped as u64) << 1
+                    | (*writer_shutdown as u64) << 2
+                    | (dispatcher_waker.is_some() as u64) << 3
+                    | (writer_waker.is_some() as u64) << 4,
+            );
+        }
+        let c = consumer.lock();
+        out.push(c.capacity().get() as u64);
+        let (a, b) = c.as_slices();
+        let mut v = Vec::with_capacity(a.len() + b.len());
+        v.extend_from_slice(a);
+        v.extend_from_slice(b);
+        crate::verif::push_bytes(out, &v);
+    }
+
+    /// Verification hook: (bytes buffered, capacity) of the TX ring.
+    pub fn verif_ring(&self) -> (usize, usize) {
+        let c = self.consumer.lock();
+        (c.occupied_len(), c.capacity().get())
+    }
+
+    /// Verification hook: copy of the ring contents.
+    pub fn verif_ring_contents(&self) -> Vec<u8> {
+        let c = self.consumer.lock();
+        let (a, b) = c.as_slices();
+        let mut v = Vec::with_capacity(a.len() + b.len());
+        v.extend_from_slice(a);
+        v.extend_from_slice(b);
+        v
+    }
+}
+
+#[cfg(feature = "verif")]
+impl UtpStreamWriteHalf {
+    /// Verification hook: the write half's only private state.
+    pub fn verif_written_without_yield(&self) -> u64 {
+        let UtpStreamWriteHalf {
+            user_tx: _,
+            written_without_yield,
+        } = self;
+        *written_without_yield
+    }
+}
